@@ -96,6 +96,45 @@ def init_rmw(prog, res, f):
         if not readers:
             raise AnalysisBroken("no payload-reading function is applied to the accumulator in %s" % f.name)
 
+        # how many bytes were mapped for this frame (the size handed to channel_write_map)
+        from .. import congr as _congr
+        msize = None
+        for c_ in ir.calls_in(s):
+            if c_.get("fn") == "channel_write_map" and len(c_.get("args", [])) >= 2:
+                msize = ir.strip(c_["args"][1])
+        # the image shape stored into the frame's header ( .shape = S ): bytes_of_image(&S) is the payload
+        hdr_shapes = set()
+        for bb_, ii_, ss_ in f.all_stmts():
+            for y_ in ir.walk(ss_):
+                if isinstance(y_, dict) and y_.get("k") == "init":
+                    for e_ in y_.get("elts", []):
+                        if e_.get("f") == "shape" and isinstance(e_.get("v"), dict):
+                            v_ = ir.strip(e_["v"])
+                            if v_.get("k") == "var":
+                                hdr_shapes.add(v_.get("id"))
+        partial = []
+
+        def covers_payload(c, pos):
+            """size argument of the memset = mapped bytes - header, or bytes_of_image of the header's shape"""
+            n_ = ir.strip(c["args"][2]) if len(c.get("args", [])) >= 3 else None
+            n_ = ir.strip(_congr.resolve_at(prog, f, pos, n_)) if isinstance(n_, dict) else n_
+            if isinstance(n_, dict) and n_.get("k") == "bin" and n_.get("op") == "-":
+                r_ = ir.strip(n_["r"])
+                l_ = ir.strip(n_["l"])
+                if isinstance(r_, dict) and r_.get("k") == "int" and r_.get("sizeof_r") == "VideoFrame" and msize is not None and \
+                        ir.render(_congr.inline_expr(prog, f, l_)) == ir.render(_congr.inline_expr(prog, f, msize)):
+                    return True
+            if isinstance(n_, dict) and n_.get("k") == "call" and n_.get("fn") == "bytes_of_image" and n_.get("args"):
+                a_ = ir.strip(n_["args"][0])
+                if isinstance(a_, dict) and a_.get("k") == "addr":
+                    a_ = ir.strip(a_["e"])
+                if isinstance(a_, dict) and a_.get("k") == "var" and a_.get("id") in hdr_shapes:
+                    return True
+                # the accumulator's own header:  &acc->shape
+                if isinstance(a_, dict) and a_.get("k") == "mem" and a_.get("f") == "shape" and (ir.ap(a_.get("b")) or "").replace("[0]", "").lstrip("*") == tgt.lstrip("*").replace("[0]", ""):
+                    return True
+            return False
+
         def inits(ss, tgt=tgt):
             for c in ir.calls_in(ss):
                 if c.get("fn") in ("memset", "memcpy"):
@@ -104,7 +143,10 @@ def init_rmw(prog, res, f):
                     for y in flds:
                         base = ir.ap(y["b"])
                         if base is not None and base.replace("[0]", "").lstrip("*") == tgt.lstrip("*").replace("[0]", ""):
-                            return True
+                            pos_ = next(((b2.id, i2) for b2, i2, s2 in f.all_stmts() if s2 is ss), None)
+                            if pos_ is not None and covers_payload(c, pos_):
+                                return True
+                            partial.append(ss)
             return False
         dsts = {(b_, i_) for b_, i_, n_ in readers}
 
@@ -124,9 +166,15 @@ def init_rmw(prog, res, f):
         if ok:
             res.oblige(R, inst, True, "memset/memcpy of ->data on every path from the mapping to the first read-modify", f.loc(s))
         else:
-            res.fail(R, inst, "O-INIT-RMW|%s|%s" % (f.name, names[0]), f.loc(s),
-                     "%s maps the accumulator frame from the output ring and passes it to %s, which adds into its pixel data, without initialising that data first: once the ring wraps the sum starts from stale bytes"
-                     % (f.name, names[0]), {"path_blocks": w})
+            if partial:
+                res.fail(R, inst, "O-INIT-RMW|%s|%s|extent" % (f.name, names[0]), f.loc(partial[0]),
+                         "%s clears the accumulator's pixel data with a byte count (%s) that is neither the mapped size minus the header nor bytes_of_image of the shape stored in its header: "
+                         "the accumulator is a float image, a count taken from the input frame covers a quarter or half of it and the rest of the sum starts from stale ring bytes"
+                         % (f.name, ir.render([c_ for c_ in ir.calls_in(partial[0]) if c_.get("fn") in ("memset", "memcpy")][0]["args"][2])), {"path_blocks": w})
+            else:
+                res.fail(R, inst, "O-INIT-RMW|%s|%s" % (f.name, names[0]), f.loc(s),
+                         "%s maps the accumulator frame from the output ring and passes it to %s, which adds into its pixel data, without initialising that data first: once the ring wraps the sum starts from stale bytes"
+                         % (f.name, names[0]), {"path_blocks": w})
 
 
 def _accumulate_for(prog, g, val):
@@ -814,6 +862,9 @@ def run(ctx, res):
     res.require_min("R-DRAIN", 1)
     res.guard(reset_handshake, prog, res)
     res.require_min("R-RESET-HANDSHAKE", 2)
+    from .. import runtimerules as _RRe
+    res.guard(_RRe.rule_register_early, prog, res)
+    res.require_min("R-REGISTER-EARLY", 2)
     res.guard(kernels, prog, res)
     n = pair_reader(prog, res, f)
     from .. import runtimerules as RR
